@@ -459,8 +459,9 @@ FLAG_SUBSETS = [list(c) for r in range(4) for c in itertools.combinations(["TWOS
 
 
 class Gen:
-    def __init__(self, rng: random.Random, allow_U: bool, max_depth: int, names=None):
+    def __init__(self, rng: random.Random, allow_U: bool, max_depth: int, names=None, bad_exponents: bool = True):
         self.rng = rng
+        self.bad_exponents = bad_exponents
         self.allow_U = allow_U
         self.k = 0
         self.names = names or [n for n, _ in NAME_POOL]
@@ -485,7 +486,7 @@ class Gen:
         if r < 0.18:
             base = ["paren", self.sumchain(d - 1, small=True)] if self.rng.random() < 0.8 else ["name", self.rng.choice(self.names)]
             r2 = self.rng.random()
-            if r2 < 0.06:  # exponents outside the grammar: must be rejected, never silently reinterpreted
+            if r2 < 0.06 and self.bad_exponents:  # exponents outside the grammar: must be rejected, never silently reinterpreted
                 return ["pow", self.rng.choice(["**", "^"]), base, self.rng.choice(["(1+2)", "(2+1)", "b", "2.0", "(0)", "00", "1.5", "(a)", "(2:1)"])]
             return ["pow", self.rng.choice(["**", "^"]), base, self.rng.choice([1, 2, 2, 3]), "paren" if r2 < 0.2 else "plain"]
         op = self.rng.choice([":", ":", "*", "/", "%in%"])
